@@ -7,6 +7,39 @@ package main
 
 import "math/big"
 
+// Reasons shared by every primitive family, appended after the family's own
+// reasons: the identifier octet is not the expected one, or the length octets
+// in front of the contents are not the DER form (X.690 10.1).
+type extReasons struct {
+	wrongID, lenLeadZero, lenShort, contentShort, indef int
+}
+
+func mkExt(base []string) ([]string, extReasons) {
+	n := len(base)
+	out := append(append([]string{}, base...),
+		"identifier octet is not the expected primitive one (constructed bit set or another class)",
+		"long-form length with a leading zero octet (non-minimal length)",
+		"long-form length used for a length below 128 (non-minimal length)",
+		"declared contents longer than the input (truncated contents)",
+		"indefinite length")
+	return out, extReasons{n, n + 1, n + 2, n + 3, n + 4}
+}
+
+// mapHdr translates a header verdict of refHeader into the family's reasons.
+func (x extReasons) mapHdr(hdrReason int) int {
+	switch hdrReason {
+	case hdrCanonical:
+		return 0
+	case hdrLenLeadZero:
+		return x.lenLeadZero
+	case hdrLenShort:
+		return x.lenShort
+	case hdrIndefinite:
+		return x.indef
+	}
+	return x.contentShort
+}
+
 // ---------------------------------------------------------------- INTEGER
 
 // X.690 8.3.1: the contents octets shall consist of one or more octets.
@@ -20,12 +53,12 @@ const (
 	intLeadFF
 )
 
-var intReasons = []string{
+var intReasons, intX = mkExt([]string{
 	"canonical",
 	"empty contents",
 	"non-minimal: 0x00 octet before an octet with bit 8 clear",
 	"non-minimal: 0xff octet before an octet with bit 8 set",
-}
+})
 
 type refInt struct {
 	reason int
@@ -76,6 +109,11 @@ func (r *refInt) fitsSigned(bits uint) bool {
 	return r.big.BitLen() < int(bits) || (r.big.Sign() < 0 && new(big.Int).Add(r.big, new(big.Int).Lsh(big.NewInt(1), bits-1)).Sign() == 0)
 }
 
+// fitsUnsigned: the value is in [0, 2^bits), bits < 64.
+func (r *refInt) fitsUnsigned(bits uint) bool {
+	return r.small && r.v >= 0 && r.v < int64(1)<<bits
+}
+
 func (r *refInt) fitsUint64() bool {
 	if r.small {
 		return r.v >= 0
@@ -87,12 +125,18 @@ func (r *refInt) eqInt64(x int64) bool {
 	if r.small {
 		return r.v == x
 	}
+	if r.big == nil { // empty contents: no value
+		return false
+	}
 	return r.big.IsInt64() && r.big.Int64() == x
 }
 
 func (r *refInt) eqUint64(x uint64) bool {
 	if r.small {
 		return r.v >= 0 && uint64(r.v) == x
+	}
+	if r.big == nil {
+		return false
 	}
 	return r.big.IsUint64() && r.big.Uint64() == x
 }
@@ -103,6 +147,9 @@ func (r *refInt) eqBig(x *big.Int) bool {
 	}
 	if r.small {
 		return x.IsInt64() && x.Int64() == r.v
+	}
+	if r.big == nil {
+		return false
 	}
 	return r.big.Cmp(x) == 0
 }
@@ -116,11 +163,11 @@ const (
 	boolValue
 )
 
-var boolReasons = []string{
+var boolReasons, boolX = mkExt([]string{
 	"canonical",
 	"contents are not exactly one octet",
 	"contents octet is neither 0x00 nor 0xff",
-}
+})
 
 func refBoolean(content []byte) (reason int, val bool) {
 	if len(content) != 1 {
@@ -149,19 +196,21 @@ const (
 	oidLead80
 )
 
-var oidReasons = []string{
+var oidReasons, oidX = mkExt([]string{
 	"canonical",
 	"empty contents",
 	"last octet has the continuation bit set (truncated sub-identifier)",
 	"sub-identifier with a leading 0x80 octet (non-minimal)",
-}
+})
+
+const maxArcs = 272 // bodies of up to 257 octets hold at most 258 arcs
 
 type refOIDRes struct {
 	reason int
-	n      int        // number of arcs
-	arcs   [16]uint64 // arc values (valid when reason==0 and !huge)
-	maxSub uint64     // largest raw sub-identifier value
-	huge   bool       // a sub-identifier exceeds 63 bits or more than 15 arcs
+	n      int             // number of arcs
+	arcs   [maxArcs]uint64 // arc values (valid when reason==0 and !huge)
+	maxSub uint64          // largest raw sub-identifier value
+	huge   bool            // a sub-identifier exceeds 63 bits or more than maxArcs-1 arcs
 }
 
 func refOID(body []byte, r *refOIDRes) {
@@ -228,13 +277,16 @@ const (
 	bitPadBits
 )
 
-var bitReasons = []string{
+var bitReasons, bitX = mkExt([]string{
 	"canonical",
 	"empty contents (no initial octet)",
 	"initial octet (unused-bit count) above 7",
 	"unused-bit count non-zero with no content octets",
 	"non-zero padding bits",
-}
+})
+
+// OCTET STRING: X.690 8.7 primitive form, any contents; only the header can be wrong.
+var octReasons, octX = mkExt([]string{"canonical"})
 
 func refBitString(body []byte) (reason int, bitLen int) {
 	if len(body) == 0 {
@@ -412,7 +464,7 @@ const (
 	gtFraction
 )
 
-var gtReasons = []string{
+var gtReasons, gtX = mkExt([]string{
 	"canonical",
 	"not of the form YYYYMMDDHHMMSS[.f](Z|+hhmm|-hhmm): missing seconds or zone, lower-case z, stray octets",
 	"calendar or clock field out of range",
@@ -422,11 +474,11 @@ var gtReasons = []string{
 	"time differential with hh > 23 or mm > 59",
 	"non-UTC time differential (not DER; round trip can still hold)",
 	"fractional seconds in DER form (the library encoder cannot produce them)",
-}
+})
 
 // reasons on which the property statement is silent: a decoder may reject them
 // or accept them, but if it accepts, the round trip must still hold.
-var gtTolerated = []bool{false, false, false, false, false, true, true, true, true}
+var gtTolerated = []bool{false, false, false, false, false, true, true, true, true, false, false, false, false, false}
 
 type refTime struct {
 	reason              int
